@@ -22,6 +22,7 @@ import numpy as np
 from . import frames as F
 from . import prelude
 from .inject import Injector, SimAbortBase, SimAbortExc
+from .obs import arrays_equal, compare_obs, digest  # noqa: F401
 
 import formulae  # noqa: E402  (after prelude fixed sys.path)
 from formulae.transforms import TRANSFORMS
@@ -110,79 +111,6 @@ def observe_design(dm):
         "common": observe_common(dm.common),
         "group": observe_group(dm.group),
     }
-
-
-def _canon(obj, h, numeric):
-    """Feed a canonical encoding of obj into hash h.  numeric=False leaves float
-    payloads out (structure digest), numeric=True includes exact bytes."""
-    if isinstance(obj, np.ndarray):
-        h.update(f"<A{obj.dtype.kind}{obj.shape}>".encode())
-        if numeric:
-            if obj.dtype.kind in "OUSV":  # object arrays: bytes would be pointers
-                h.update(repr(obj.tolist()).encode())
-            else:
-                h.update(np.ascontiguousarray(obj).tobytes())
-    elif isinstance(obj, dict):
-        for k in obj:
-            h.update(f"<K{k}>".encode())
-            _canon(obj[k], h, numeric)
-    elif isinstance(obj, (list, tuple)):
-        h.update(b"<L>")
-        for x in obj:
-            _canon(x, h, numeric)
-        h.update(b"</L>")
-    else:
-        h.update(repr(obj).encode())
-
-
-def digest(obj, numeric=True):
-    h = hashlib.sha256()
-    _canon(obj, h, numeric)
-    return h.hexdigest()[:20]
-
-
-def arrays_equal(a, b):
-    """(exact, close) for two arrays."""
-    if a.shape != b.shape or a.dtype.kind != b.dtype.kind:
-        return False, False
-    if a.dtype.kind in "fc":
-        exact = bool(np.array_equal(a, b, equal_nan=True))
-        close = exact or bool(np.allclose(a, b, rtol=1e-11, atol=1e-12, equal_nan=True))
-        return exact, close
-    exact = bool(np.array_equal(a, b))
-    return exact, exact
-
-
-def compare_obs(a, b, path="", stats=None):
-    """First difference between two observables, or None."""
-    if isinstance(a, np.ndarray) or isinstance(b, np.ndarray):
-        if not (isinstance(a, np.ndarray) and isinstance(b, np.ndarray)):
-            return f"{path}: array vs {type(b).__name__}"
-        exact, close = arrays_equal(a, b)
-        if not close:
-            return f"{path}: arrays differ shape {a.shape} vs {b.shape}"
-        if not exact and stats is not None:
-            stats["ulp_diffs"] = stats.get("ulp_diffs", 0) + 1
-        return None
-    if isinstance(a, dict) and isinstance(b, dict):
-        if list(a) != list(b):
-            return f"{path}: keys {list(a)} vs {list(b)}"
-        for k in a:
-            d = compare_obs(a[k], b[k], f"{path}.{k}", stats)
-            if d:
-                return d
-        return None
-    if isinstance(a, (list, tuple)) and isinstance(b, (list, tuple)):
-        if len(a) != len(b):
-            return f"{path}: length {len(a)} vs {len(b)}: {a!r} vs {b!r}"[:300]
-        for i, (x, y) in enumerate(zip(a, b)):
-            d = compare_obs(x, y, f"{path}[{i}]", stats)
-            if d:
-                return d
-        return None
-    if a != b:
-        return f"{path}: {a!r} vs {b!r}"[:300]
-    return None
 
 
 def raise_site(exc):
@@ -310,6 +238,8 @@ class World:
         self.count_lines = any((op.get("fault") or {}).get("kind") == "inject" for op in scenario["ops"])
         self.suppress = suppress or (lambda v: False)
         self.suppressed = []
+        self.dump = None  # list of per-step observables when requested
+        self.last_obs = None
 
     # -- bookkeeping helpers
     def bump(self, key, n=1):
@@ -415,6 +345,7 @@ class World:
         chain_n = hashlib.sha256()
         for i, op in enumerate(self.sc["ops"]):
             self.step = i
+            self.last_obs = None
             try:
                 ev = getattr(self, "op_" + op["op"])(op)
                 self.after_step(op)
@@ -427,6 +358,8 @@ class World:
                 break
             ev["n"] = i
             self.events.append(ev)
+            if self.dump is not None:
+                self.dump.append(self.last_obs)
             chain_s.update(f"{i}|{ev['op']}|{ev['outcome']}|{ev.get('sd', '')}".encode())
             chain_n.update(f"{i}|{ev.get('nd', '')}".encode())
             self.trigram_src.append(f"{op['op']}:{ev['outcome']}")
@@ -442,6 +375,7 @@ class World:
             "states": sorted(self.states),
             "suppressed": self.suppressed,
             "n_ops": len(self.events),
+            "dump": self.dump,
         }
 
     def record_state(self):
@@ -466,6 +400,7 @@ class World:
         if outcome in ("ok", "swallowed"):
             dm = value
             obs = observe_design(dm)
+            self.last_obs = obs
             used = op["fm"]["used"] if "fm" in op else []
             n = F.n_rows(self.frame_spec[op["frame"]])
             if op["na_action"] == "drop":
@@ -571,6 +506,7 @@ class World:
             root["failed_eval"] = True
         if outcome in ("ok", "swallowed"):
             obs = observe_part(value, part)
+            self.last_obs = {"obs": obs, "warnings": sorted(w.category.__name__ for w in wl)}
             widened = False
             if part == "group":
                 base = root["obs0"]["group"]["M"].shape[1]
@@ -736,6 +672,7 @@ class World:
         except Exception as e:  # noqa: BLE001
             obs = ("raise", type(e).__name__)
         self.bump("op.describe")
+        self.last_obs = list(obs)
         if "A" in self.oracles:
             self.bump("check.A.describe")
             ref = self.ref.ask({"mode": self.mode, "describe": op["formula"]})["describe"]
@@ -917,7 +854,7 @@ class World:
                       f"TRANSFORMS/ENCODINGS changed at step {self.step} ({op['op']})", extra)
 
 
-def run_scenario(scenario, oracles=None, ref=None, suppress=None):
+def run_scenario(scenario, oracles=None, ref=None, suppress=None, dump=False):
     """Run one scenario from a clean config; returns the result dict."""
     oracles = set(oracles if oracles is not None else ORACLES_OF[scenario["property"]])
     formulae.config[KEY] = "error"
@@ -925,6 +862,8 @@ def run_scenario(scenario, oracles=None, ref=None, suppress=None):
                     for op in scenario["ops"])
     inj = _INJECTOR if needs_inj else None
     w = World(scenario, oracles, ref=ref, injector=inj, suppress=suppress)
+    if dump:
+        w.dump = []
     try:
         out = w.run()
     finally:
